@@ -41,11 +41,11 @@ CHECKS.update({
    text="from_float is from_man_exp of the frexp parts (exact by the from_man_exp theorem); to_float is normalize1 to 53 bits (correct rounding theorem) followed by an exact ldexp in the normal range. The model is tied by correspondence over all exponent fields, subnormals, binade edges and halfway points. Theorems in Props/C09.v hold for every frexp mantissa/exponent pair and every regular mpf.",
    note=TB_A + " math.frexp/ldexp trusted."),
  "C14": dict(level="proof", engine="A", technique="Coq/Flocq theorems (Props/C14.v): containment for mpi add/sub/neg/pos on all member reals; Gallina model of libmpi (add/sub/mul/div/neg/abs/square/sqrt/pow_int) in correspondence; containment decided exactly at sampled member points; iv conversions and operators at API level",
-   text="Interval arithmetic is transliterated branch for branch (all sign cases, zero and infinite endpoints); floor/ceiling endpoint roundings are instances of the normalize theorems; the model is tied by correspondence and containment of exact results is decided exactly for member points of every generated interval, including endpoints longer than the precision and string/number conversions. Theorems in Props/C14.v: for finite canonical endpoints of any length and every pair of member reals, x+y, x-y, -x, +x, x*y (all nine sign cases incl. the min/max of exact corner products), x*x, |x|, x/y (denominator interval not containing 0), sqrt x and x^n (n > 0, all sign/parity cases, built on the directed mpf_pow_int theorems of C03) lie in the computed interval, which is again a valid interval. Elementary functions on intervals are decided per sampled interval by universally quantified Coq Interval certificates (props/c14e.py, exploration level for that part).",
-   note=TB_A + " Infinite endpoints, division by intervals containing zero and negative integer powers: correspondence + exact oracle (no theorem). Elementary part: Coq Interval certificates per instance (" + "Interval/Coquelicot axioms as for engine B). Gamma family on intervals not decided."),
- "C15": dict(level="proof", engine="A", technique="Coq/Flocq theorems (Props/C15.v): mpci add/sub/neg/pos/mul/square contain every exact complex result for all member points; Gallina model of mpci add/sub/mul/div/square/pow_int in correspondence; containment decided exactly at 16x9 member points per case; point-wise Interval certificates for abs/exp/log/cos/sin on rectangles",
-   text="Complex interval arithmetic is a composition of the real interval model: theorems in Props/C15.v prove, for finite rectangles, every precision and every member point a+bi, c+di, that the sum, difference, negation, product (ac-bd, ad+bc) and square lie in the computed rectangle (compositions of the C14 containment theorems with exact inner products). The model is tied by correspondence; division and powers are decided exactly at member points; abs/exp/log/cos/sin on rectangles are decided point-wise by Coq Interval certificates (a necessary condition only; exploration level for that part).",
-   note=TB_A + " Division, integer powers: correspondence + exact oracle (no theorem). Elementary part: per-point Interval certificates. Gamma family on rectangles not decided."),
+   text="Interval arithmetic is transliterated branch for branch (all sign cases, zero and infinite endpoints); floor/ceiling endpoint roundings are instances of the normalize theorems; the model is tied by correspondence and containment of exact results is decided exactly for member points of every generated interval, including endpoints longer than the precision and string/number conversions. Theorems in Props/C14.v: for finite canonical endpoints of any length and every pair of member reals, x+y, x-y, -x, +x, x*y (all nine sign cases incl. the min/max of exact corner products), x*x, |x|, x/y (denominator interval not containing 0), sqrt x, x^n (n > 0, all sign/parity cases, built on the directed mpf_pow_int theorems of C03) and 1/x^n (when the enclosure of x^n excludes zero) lie in the computed interval, which is again a valid interval. Elementary functions on intervals are decided per sampled interval by universally quantified Coq Interval certificates (props/c14e.py, exploration level for that part).",
+   note=TB_A + " Infinite endpoints, division by intervals containing zero: correspondence + exact oracle (no theorem). Elementary part: Coq Interval certificates per instance (" + "Interval/Coquelicot axioms as for engine B). Gamma family on intervals not decided."),
+ "C15": dict(level="proof", engine="A", technique="Coq/Flocq theorems (Props/C15.v): mpci add/sub/neg/pos/mul/square/div/pow_int (n>0) contain every exact complex result for all member points; Gallina model of mpci add/sub/mul/div/square/pow_int in correspondence; containment decided exactly at 16x9 member points per case; point-wise Interval certificates for abs/exp/log/cos/sin on rectangles",
+   text="Complex interval arithmetic is a composition of the real interval model: theorems in Props/C15.v prove, for finite rectangles, every precision and every member point a+bi, c+di, that the sum, difference, negation, product (ac-bd, ad+bc), square, quotient (when the enclosure of |w|^2 excludes zero) and positive integer powers (loop invariant by induction on the exponent bits) lie in the computed rectangle (compositions of the C14 containment theorems with exact inner products). The model is tied by correspondence; division and powers are decided exactly at member points; abs/exp/log/cos/sin on rectangles are decided point-wise by Coq Interval certificates (a necessary condition only; exploration level for that part).",
+   note=TB_A + " Negative powers and complex exponents: correspondence + exact oracle (no theorem). Elementary part: per-point Interval certificates. Gamma family on rectangles: necessary condition at integer member points only."),
  "C16": dict(level="proof", engine="A", technique="Coq theorems (Props/C16.v): three-valued interval comparisons are exactly the for-all / for-none statements over member reals; Gallina model of mpi_lt/le/gt/ge/eq in correspondence; three-valued semantics decided exactly from endpoints",
    text="The three-valued comparison functions are transliterated; since an interval relation holds for all/no member pairs iff it holds for the corresponding endpoints, each case is decided exactly; `in`, == and != at API level on touching, nested, infinite and point intervals. Theorems in Props/C16.v prove for finite endpoints that True means the relation holds for every pair of members, False for none, None otherwise.",
    note=TB_A),
